@@ -338,6 +338,16 @@ struct InflateSession {
                                                         if (rem)
                                                                 flg += 31 - rem;
                                                         bytes[1] = (uint8_t) flg;
+                                                        // half the time a well-formed DICTID is inserted as well (boundary values included), so that
+                                                        // what follows is exactly the stream of an encoder that used a dictionary nobody supplies
+                                                        if (val & 4) {
+                                                                static const uint32_t ids[] = { 0, 1, 0xffffffffu, 0x00010000u, 0x80000000u };
+                                                                uint32_t id = (val & 8) ? ids[(val >> 4) % 5] : (uint32_t) (off * 2654435761u);
+                                                                uint8_t idb[4] = { (uint8_t) (id >> 24), (uint8_t) (id >> 16), (uint8_t) (id >> 8), (uint8_t) id };
+                                                                bytes.insert(bytes.begin() + 2, idb, idb + 4);
+                                                                hdr_len += 4;
+                                                                COUNT("xport.fdict_with_unknown_dictid");
+                                                        }
                                                 }
                                         }
                                 }
@@ -768,8 +778,19 @@ struct InflateSession {
                 ref.init(refwrap, dict.empty() ? nullptr : dict.data(), dict.size());
                 ref.out_limit = 64u << 20;
                 int rs = ref.feed(bytes.data(), bytes.size());
-                if (rs == REF_NEED_DICT)
+                bool dict_never_supplied = false;
+                if (rs == REF_NEED_DICT) {
+                        dict_never_supplied = dict.empty();
                         rs = ref.feed(bytes.data(), bytes.size());
+                }
+                if (dict_never_supplied) {
+                        // the header announces a preset dictionary (FDICT + DICTID) and the caller has none: whatever the data looks like
+                        // without it, completion must not be reported
+                        COUNT("probe.fdict_without_dictionary_judged");
+                        if (finished)
+                                rr.fail("C06.false_success", strf("decoder reports completion (%zu bytes out, mode %d) of a zlib stream that announces a preset dictionary (DICTID %08x) although none was supplied", delivered.size(), mode, ref.zl.dictid));
+                        return;
+                }
                 h.rec("verdict", { finished, final_ret, unfinished, rs, (int64_t) delivered.size(), (int64_t) hash_bytes(delivered.data(), delivered.size()) });
                 // A decoder told that the window is 2^w may refuse (as an invalid symbol) any distance beyond it.  The reference has no
                 // such limit: where it met a longer distance, or the injected fault is itself a distance, only the safety clauses and
